@@ -452,6 +452,23 @@ def NS.readLimit (s : NS) (ee : EE) (lim : Limit) (ctx : Nat) : Option Rat × NS
     let s := { s with nq := s.nq + 1 }.emit (.var x (s.taskUid ctx).toNat)
     (((v.bind (·.follow segs)).bind (·.toNum?)).map (·.1), s)
 
+/-- `on_counting_loop_started`, the counter: 0 at the first visit of this loop in this task instance, else one more -/
+def NS.bumpCounter (s : NS) (ctx line : Nat) (var : String) : Nat × NS :=
+  let u := s.taskUid ctx
+  let d := (dictGet s.loopCtrs u).getD []
+  let key := LoopKey.loop line var
+  let c := match dictGet d key with
+    | some (.cnt c) => c + 1
+    | some (.cell _) => 0      -- not reachable: parallel loops use the variable name as key
+    | none => 0
+  (c, { s with loopCtrs := dictSet s.loopCtrs u (dictSet d key (.cnt c)) })
+
+/-- `del self.loop_counters[task_context.uuid][loop]` -/
+def NS.dropCounter (s : NS) (ctx line : Nat) (var : String) : NS :=
+  let u := s.taskUid ctx
+  let d := (dictGet s.loopCtrs u).getD []
+  { s with loopCtrs := dictSet s.loopCtrs u (dictDel d (LoopKey.loop line var)) }
+
 /-- `for callback in callbacks: if it is the parallel-loop callback: temp = callback; callbacks.remove(temp)`:
     iteration by position over the list that is being changed (the element after a removed one is skipped) -/
 def extractPloop (l : List (Nat × Cb)) (pos : Nat) (temp : Option Cb) : Nat → Option Cb × List (Nat × Cb)
@@ -575,15 +592,7 @@ def runCb (ee : EE) : Nat → Cb → NS → NS
         (fireEv ee f (AEv.setPlace p) { s with awaited := s.awaited ++ [.setPlace p] }).2
   | f+1, .cloop line var lim thenP elseP ctx, s =>
       -- on_counting_loop_started
-      let u := s.taskUid ctx
-      let d := (dictGet s.loopCtrs u).getD []
-      let key := LoopKey.loop line var
-      let c := match dictGet d key with
-        | some (.cnt c) => c + 1
-        | some (.cell _) => 0      -- not reachable: parallel loops use the variable name as key
-        | none => 0
-      let d := dictSet d key (.cnt c)
-      let s := { s with loopCtrs := dictSet s.loopCtrs u d }
+      let (c, s) := s.bumpCounter ctx line var
       let (n, s) := s.readLimit ee lim ctx
       match n with
       | none => s.raise "EvalError"
@@ -591,7 +600,8 @@ def runCb (ee : EE) : Nat → Cb → NS → NS
         if (c : Rat) < n then
           (fireEv ee f (AEv.setPlace thenP) { s with awaited := s.awaited ++ [.setPlace thenP] }).2
         else
-          let s := { s with loopCtrs := dictSet s.loopCtrs u (dictDel d key), awaited := s.awaited ++ [.setPlace elseP] }
+          -- the loop is left: its counter is forgotten
+          let s := { s.dropCounter ctx line var with awaited := s.awaited ++ [.setPlace elseP] }
           (fireEv ee f (AEv.setPlace elseP) s).2
   | f+1, .ploop var lim c place t1 t2 ctx, s =>
       -- on_parallel_loop_started
@@ -625,25 +635,36 @@ def listenSS (ee : EE) : Nat → Nat → List Nat → NS → NS
     if s.exc.isSome then s else
     let n := s.noteS .ss i
     let s := s.emit (.inv fn n)
-    let s :=
-      if fn == eeFn then
-        let k := s.announced.size
-        let s := { s with announced := s.announced.push n.id, pending := s.pending ++ [k] }
-        let s :=
-          if ee.immOther k then
-            let inprog := s.inProg.filter (· != k)
-            -- a completion that is being delivered right now is reported again
-            let s := match inprog.head? with
-              | some j => if k % 2 == 0 then complete ee f j s else s
-              | none => s
-            match (s.pending.filter (fun j => j != k && !s.inProg.contains j)).head? with
-            | some j => complete ee f j s
-            | none => s
-          else s
-        if s.exc.isSome then s
-        else if ee.imm k then complete ee f k s else s
-      else s
+    let s := if fn == eeFn then eeStarted ee f n.id s else s
     listenSS ee f i fns s
+
+/-- the execution engine's service-started listener: book-keeping, then the scripted re-entrant reports -/
+def eeStarted (ee : EE) : Nat → Nat → NS → NS
+  | 0, _, s => s.outOfFuel
+  | f+1, id, s =>
+    let k := s.announced.size
+    let s := { s with announced := s.announced.push id, pending := s.pending ++ [k] }
+    let s := if ee.immOther k then eeOther ee f k s else s
+    if s.exc.isSome then s
+    else if ee.imm k then complete ee f k s else s
+
+/-- cross re-entrancy: a completion that is being delivered right now is reported again (even announcements
+    only), then the oldest other outstanding service is reported -/
+def eeOther (ee : EE) : Nat → Nat → NS → NS
+  | 0, _, s => s.outOfFuel
+  | f+1, k, s =>
+    let s := eeAgain ee f k s
+    match (s.pending.filter (fun j => j != k && !s.inProg.contains j)).head? with
+    | some j => complete ee f j s
+    | none => s
+
+/-- a completion that is being delivered right now is reported again -/
+def eeAgain (ee : EE) : Nat → Nat → NS → NS
+  | 0, _, s => s.outOfFuel
+  | f+1, k, s =>
+    match (s.inProg.filter (· != k)).head? with
+    | some j => if k % 2 == 0 then complete ee f j s else s
+    | none => s
 
 /-- the service-finished listeners -/
 def listenSF (ee : EE) : Nat → Nat → List Nat → NS → NS
@@ -653,17 +674,20 @@ def listenSF (ee : EE) : Nat → Nat → List Nat → NS → NS
     if s.exc.isSome then s else
     let n := s.noteS .sf i
     let s := s.emit (.inv fn n)
-    let s :=
-      if fn == eeFn then
-        let k := s.nSf
-        let s := { s with nSf := k + 1 }
-        if ee.immSf k then
-          match (s.pending.filter (fun j => !s.inProg.contains j)).head? with
-          | some j => complete ee f j s
-          | none => s
-        else s
-      else s
+    let s := if fn == eeFn then eeFinished ee f s else s
     listenSF ee f i fns s
+
+/-- the execution engine's service-finished listener -/
+def eeFinished (ee : EE) : Nat → NS → NS
+  | 0, s => s.outOfFuel
+  | f+1, s =>
+    let k := s.nSf
+    let s := { s with nSf := k + 1 }
+    if ee.immSf k then
+      match (s.pending.filter (fun j => !s.inProg.contains j)).head? with
+      | some j => complete ee f j s
+      | none => s
+    else s
 
 /-- the execution engine reports the k-th announced service from inside a callback -/
 def complete (ee : EE) : Nat → Nat → NS → NS
@@ -747,5 +771,14 @@ def step (ee : EE) (fuel : Nat) (s : NS) (op : Op) : CallResult :=
   | .detach o =>
       if s.observers.contains o then { ret := none, s := { s with observers := s.observers.erase o } }
       else { ret := none, s := s.raise "ValueError" }
+
+end Pfdl.Net
+
+namespace Pfdl.Net
+
+/-- state after a history of API calls -/
+def runOps (ee : EE) (fuel : Nat) (s : NS) : List Op → NS
+  | [] => s
+  | op :: ops => runOps ee fuel (step ee fuel s op).s ops
 
 end Pfdl.Net
